@@ -97,7 +97,7 @@ CONFIGS = {
     # deeper / wider variants (thorough)
     "dyn6":   (["leaf:A", "leaf:B", "single", "top"], [0, 2], 6, 1, 1),
     "outer":  (["leaf:A", "leaf:B", "single", "top", "tsum", "outer"], [0, 2], 5, 2, 1),
-    "gc3":    (["single", "byKey:0", "byKey:1", "top", "leaf:A"], [0, 2], 6, 2, 1),
+    "gc3":    (["single", "byKey:0", "byKey:1", "top", "leaf:A", "leaf:B"], [0, 2], 6, 2, 1),
     "twin6":  (["twin:a", "twin:b", "single", "byKey:0"], [1, 2], 6, 1, 1),
 }
 
